@@ -77,6 +77,7 @@ def run(F, rep, tier):
     offset_rule(F, rep)
     components_rule(F, rep)
     whole_months_rule(F, rep, tier)
+    wall_clock_rule(F, rep)
     instants_rule(F, rep)
     # the properties of a date-and-time (time offset, timezone) are those at the value's own date: its time component never reaches the zone-at-today operations (C13's R13.6)
     import callgraph
@@ -608,3 +609,96 @@ def whole_months_rule(F, rep, tier):
     else:
         rep.ok(rid, "ym_duration", "%d representative pairs of dates fold to the calendar's number of whole months" % checked)
     rep.analysed["whole_month_pairs"] = checked
+
+
+# ======================================================================================================
+# R15.8: the offset of a zone at a written (wall clock) date and time is resolved as local time of that zone
+LOCAL_RESOLUTION = re.compile(r"::(offset_from_local_datetime|offset_from_local_date|from_local_datetime|from_local_date|with_ymd_and_hms|and_local_timezone|ymd_opt|and_hms_opt|and_hms_milli_opt|"
+                              r"and_hms_micro_opt|and_hms_nano_opt|ymd|and_hms|and_hms_nano)$")
+UTC_RESOLUTION = re.compile(r"::(offset_from_utc_datetime|offset_from_utc_date|from_utc_datetime|from_utc_date)$")
+
+
+def operand_locals(x, out):
+    """locals mentioned in an rvalue / operand list of the MIR facts"""
+    if isinstance(x, list):
+        if len(x) == 2 and x[0] in ("C", "M") and isinstance(x[1], list) and x[1] and isinstance(x[1][0], int):
+            out.add(x[1][0])
+            for pr in x[1][1:]:
+                if isinstance(pr, list) and pr and pr[0] in ("[]", "idx") and len(pr) > 1 and isinstance(pr[1], int):
+                    out.add(pr[1])
+            return
+        for y in x:
+            operand_locals(y, out)
+
+
+def wall_clock_rule(F, rep):
+    """`get_local_offset(date, time)` / `get_zone_offset(zone, date, time)` receive the components *written* in the value: a wall clock reading in that zone.  The offset in
+    force at that reading is what chrono's local-time resolution of the zone gives (offset_from_local_datetime, from_local_datetime, ymd_opt(..).and_hms_nano_opt(..) on the
+    zone ...).  Reading the same digits as a UTC instant and asking the zone for its offset *then* (offset_from_utc_datetime, from_utc_datetime on a zone other than Utc) is off
+    by the amount of the transition for the hours next to a daylight saving switch.  Decided on MIR by a backward data slice of the returned offset: it must contain a
+    local-resolution call on a zone that is not Utc; a slice that reaches the answer only through a UTC-resolution call of such a zone is positive evidence."""
+    rid = rep.rule("R15.8", "the UTC offset of the local / a named zone at a written date and time is obtained by resolving the reading as local time of that zone (not by reading the digits as UTC)")
+    import mirutil
+    found = 0
+    for simple in ("get_local_offset", "get_zone_offset"):
+        names = [n for n in F.bodies if n.startswith("dmntk_feel::") and n.split("::")[-1] == simple]
+        if not names:
+            if any(k.split("::")[-1] in ("compare", "subtract") for k in F.bodies if k.startswith("dmntk_feel::temporal")):
+                rep.undecided(rid, simple, "no function of this name: the offset resolution has been reorganised")
+            else:
+                rep.missing_anchor(rid, "dmntk_feel::temporal::%s" % simple)
+            continue
+        found += 1
+        b = F.bodies[names[0]]
+        B = mirutil.Body(F, b)
+        # backward data slice from the return place
+        seen, work = set(), [0]
+        calls = []
+        while work:
+            l = work.pop()
+            if l in seen:
+                continue
+            seen.add(l)
+            for (bi, si, kind, st) in B.defs.get(l, []):
+                ls = set()
+                if l == 0 and kind == "call" and (st["f"].get("p") or "").endswith("from_residual"):
+                    continue              # the early `None` / `Err` exit of a `?`: not the offset that is answered
+                if kind == "call":
+                    calls.append(st)
+                    operand_locals(st.get("args", []), ls)
+                else:
+                    rv = st[2]
+                    operand_locals(rv, ls)
+                    if rv[0] in ("Ref", "AddrOf", "RawPtr") and isinstance(rv[2], list) and rv[2] and isinstance(rv[2][0], int):
+                        ls.add(rv[2][0])                  # the borrowed place
+                    elif rv[0] in ("Disc", "Len") and isinstance(rv[1], list) and rv[1] and isinstance(rv[1][0], int):
+                        ls.add(rv[1][0])
+                work.extend(ls - seen)
+        local_res, utc_res = [], []
+        for c in calls:
+            p = c["f"].get("o") or c["f"].get("p") or ""
+            full = (c["f"].get("p") or "") + " " + str(c["f"].get("substs") or "") + " " + str(c["f"].get("self_ty_s") or "")
+            recv_ty = B.local_ty(c["args"][0][1][0]) if c.get("args") and c["args"][0][0] in ("C", "M") and len(c["args"][0][1]) >= 1 else ""
+            is_utc_zone = "Utc" in recv_ty or "offset::utc::Utc" in full or "<chrono::Utc" in full
+            if "::naive::" in p:
+                continue                  # NaiveDate / NaiveTime constructors know no zone
+            if p.endswith("::with_timezone") and len(c.get("args", [])) == 2:
+                # an instant re-expressed in another zone: a UTC resolution of the zone given as argument
+                a1 = c["args"][1]
+                zty = B.local_ty(a1[1][0]) if a1[0] in ("C", "M") else ""
+                if "Utc" not in zty:
+                    utc_res.append("with_timezone")
+                continue
+            if LOCAL_RESOLUTION.search(p) and not is_utc_zone:
+                local_res.append(p.split("::")[-1])
+            elif UTC_RESOLUTION.search(p) and not is_utc_zone:
+                utc_res.append(p.split("::")[-1])
+        where = "%s:%s" % (b["file"], b["line"])
+        if local_res:
+            rep.ok(rid, simple, "the returned offset derives from %s on the zone" % sorted(set(local_res))[0])
+        elif utc_res:
+            rep.violation(rid, simple, "%s answers with the zone's offset at the written digits read as a UTC instant (%s) and never resolves them as local time of the zone: near a daylight "
+                          "saving switch the offset is that of the other side of the switch" % (simple, sorted(set(utc_res))[0]), where)
+        else:
+            rep.undecided(rid, simple, "the returned offset does not derive from a chrono resolution call the rule knows")
+    rep.analysed["offset_resolution_functions"] = found
